@@ -201,6 +201,43 @@ pub fn check(m: &Mat, p: &mut Probe) -> Check {
     Ok(())
 }
 
+/// large sparse matrices (more than 64 rows): a unit column per row at generated positions
+/// (full rank), a few extra ones, optionally one row made equal to another (rank deficient)
+fn large_strategy(_t: Tier) -> BoxedStrategy<Mat> {
+    (60usize..=140, 0usize..=70)
+        .prop_flat_map(|(r, k)| {
+            let n = r + k;
+            (
+                Just((r, n)),
+                Just((0..n).collect::<Vec<usize>>()).prop_shuffle(),
+                proptest::collection::vec((any::<u16>(), any::<u16>()), 0..=40),
+                proptest::option::weighted(0.3, (any::<u16>(), any::<u16>())),
+            )
+        })
+        .prop_map(|((r, n), perm, extra, dup)| {
+            let mut set = std::collections::BTreeSet::new();
+            for i in 0..r {
+                set.insert((i, perm[i]));
+            }
+            for (a, b) in extra {
+                set.insert((idx(a, r), idx(b, n)));
+            }
+            if let Some((a, b)) = dup {
+                let (x, y) = (idx(a, r), idx(b, r));
+                if x != y {
+                    let src: Vec<usize> = set.iter().filter(|e| e.0 == x).map(|e| e.1).collect();
+                    set.retain(|e| e.0 != y);
+                    for c in src {
+                        set.insert((y, c));
+                    }
+                }
+            }
+            Mat { rows: r, cols: n, ones: set.into_iter().collect() }
+        })
+        .prop_flat_map(|m| shuffled(Just(m)))
+        .boxed()
+}
+
 /// fuzz-target body: a byte tape decoded into a matrix with r <= n
 pub fn fuzz_bytes(data: &[u8]) -> Check {
     let (h, _) = mat_from_bytes(data, 14, true);
@@ -226,6 +263,14 @@ pub fn property() -> Property {
                 strategy: |t| strategy(t.pick(12, 40)),
                 check,
                 health: &[("rank-deficient", 0.25), ("pivots-not-already-last", 0.25), ("square", 0.05)],
+            }),
+            Box::new(Sub {
+                name: "conversion-large",
+                rule: "large sparse matrices, 60..=140 rows and up to 70 more columns: a unit column per row at shuffled positions plus up to 40 extra ones, in 30 % of the cases one row replaced by a copy of another (rank deficient), insertion order shuffled; same oracle",
+                cases: |t| t.pick(3_000, 100_000),
+                strategy: large_strategy,
+                check,
+                health: &[("rank-deficient", 0.15)],
             }),
         ],
         assumptions: vec!["matrices have at least one row and no more rows than columns, as the property states".into()],
